@@ -392,6 +392,7 @@ func c05NestingBoundary(c *core.Ctx, do func(fam, src string, hist []string) boo
 		return "func f(n) { if n <= 0 { return n }; first([f(n - 1)]) }\nprintln(" + strings.Repeat("-(", wrappers) + "f(" + fmt.Sprint(n) + ")" + strings.Repeat(")", wrappers) + ")"
 	}
 	fails := func(n int) bool {
+		c.Current(core.Case{Kind: "nesting", Data: prog(n, 0)}) // (progress mark: each of these runs takes a second or so)
 		r := runProgram(sessCfg{noReg: true}, prog(n, 0))
 		return r.panicked || len(r.errs) > 0
 	}
@@ -496,7 +497,7 @@ func init() {
 		Assume:      []string{"type/info introspection excluded as the property states", "error texts compared verbatim (EvalOne's error strings)"},
 		QuickCap:    100 * time.Second,
 		ThoroughCap: 20 * time.Minute,
-		HangLimit:   30 * time.Second,
+		HangLimit:   180 * time.Second,
 		Run:         runC05,
 		Replay: func(c *core.Ctx, cs core.Case) *core.Viol {
 			if strings.HasPrefix(cs.Kind, "hist") {
